@@ -11,6 +11,7 @@ package snacl
 // by secretbox.Seal(message, nonce, key); the input is not modified.
 //@ func (*CryptoKey).Encrypt(ck, in) (out, err)
 //@   property C17
+//@   replay snacl_decrypt.go
 //@   requires nonnil: ck != nil
 //@   ensures fresh_nonce: randCtr == old(randCtr) + 1
 //@   ensures length: err == nil ==> len(out) == 24 + len(in) + 16
@@ -24,6 +25,7 @@ package snacl
 // data are exactly secretbox.Open's on (in[24:], nonce = in[:24], key).
 //@ func (*CryptoKey).Decrypt(ck, in) (out, err)
 //@   property C17
+//@   replay snacl_decrypt.go
 //@   requires nonnil: ck != nil
 //@   ensures malformed: len(in) < 24 ==> err == ErrMalformed && out == nil
 //@   ensures gated_by_open: len(in) >= 24 ==> (err == nil) == openOk(old(bytes(sub(in, 24, len(in)))), old(bytes(sub(in, 0, 24))), old(bytes(ck)))
@@ -48,6 +50,7 @@ package snacl
 // full stored 32-byte digest.
 //@ func (*SecretKey).DeriveKey(sk, password) (err)
 //@   property C17
+//@   replay snacl_derive.go
 //@   requires nonnil: sk != nil && sk.Key != nil && password != nil
 //@   ensures digest_gate: err == nil ==> sha256B(bytes(sk.Key)) == bytes(sk.Parameters.Digest)
 //@       && bytes(sk.Key) == scryptB(old(bytes(deref(password))), old(bytes(sk.Parameters.Salt)), old(sk.Parameters.N), old(sk.Parameters.R), old(sk.Parameters.P), 32)
@@ -56,6 +59,7 @@ package snacl
 // Marshal: 32 bytes salt, 32 bytes digest, N, R, P as little-endian uint64.
 //@ func (*SecretKey).Marshal(sk) (r)
 //@   property C17
+//@   replay snacl_derive.go
 //@   requires nonnil: sk != nil
 //@   ensures length: len(r) == 88
 //@   ensures salt: forall i Int :: {r[i]} 0 <= i && i < 32 ==> r[i] == sk.Parameters.Salt[i]
@@ -69,6 +73,7 @@ package snacl
 //@ spec func u64toInt(v Int) Int = v > 9223372036854775807 ? v - 18446744073709551616 : v
 //@ func (*SecretKey).Unmarshal(sk, marshalled) (err)
 //@   property C17
+//@   replay snacl_derive.go
 //@   requires nonnil: sk != nil
 //@   ensures wrong_length: len(marshalled) != 88 ==> err == ErrMalformed
 //@       && sk.Parameters.N == old(sk.Parameters.N) && sk.Parameters.R == old(sk.Parameters.R) && sk.Parameters.P == old(sk.Parameters.P)
@@ -82,6 +87,7 @@ package snacl
 // NewSecretKey: fresh 32-byte salt, key derived from it, digest = SHA-256(key).
 //@ func NewSecretKey(password, N, r, p) (sk, err)
 //@   property C17
+//@   replay snacl_derive.go
 //@   requires nonnil: password != nil
 //@   ensures result: err == nil ==> sk != nil && sk.Key != nil && sk.Parameters.N == N && sk.Parameters.R == r && sk.Parameters.P == p
 //@   ensures salt_fresh: err == nil ==> bytes(sk.Parameters.Salt) == randB(old(randCtr), 32)
